@@ -416,9 +416,7 @@ func (rt *runtime) convertCallParameter(v Value, t reflect.Type) (reflect.Value,
 		return reflect.ValueOf(v.bool()), nil
 	case reflect.String:
 		switch v.kind {
-		case valueString:
-			return reflect.ValueOf(v.value), nil
-		case valueNumber:
+		case valueString, valueNumber:
 			return reflect.ValueOf(v.string()), nil
 		}
 	case reflect.Int, reflect.Int8, reflect.Int16, reflect.Int32, reflect.Int64, reflect.Uint, reflect.Uint8, reflect.Uint16, reflect.Uint32, reflect.Uint64, reflect.Float32, reflect.Float64:
